@@ -75,11 +75,11 @@ type SymIface struct {
 
 // Object is one allocation.
 type Object struct {
-	Name  string
-	Input bool // owned by the caller (driver input): writes to it are effects
+	Name   string
+	Input  bool // owned by the caller (driver input): writes to it are effects
 	Global bool
-	Root  *Cell
-	ID    int
+	Root   *Cell
+	ID     int
 }
 
 // Cell is a node of an object's cell tree.
